@@ -72,6 +72,9 @@ class BasePose(np.ndarray):
             Whether the two poses are equal
 
         """
+        if type(self) is not type(other):
+            return False
+
         return np.linalg.norm(self.to_array() - other.to_array()) / max(np.linalg.norm(self.to_array()), tol) < tol
 
     # ======================================================================= #
